@@ -1,13 +1,13 @@
 (* Properties_C07.v -- C07: placement rules (deny/allow/naming/siblings) flag exactly the offending
    entries.  Property theorems only; each is closed by [exact <lemma>] and followed by Print Assumptions.
-   Model: Structure/{Placement,Siblings}.v (the code after fixes/D06-placement-last-match.patch);
+   Model: Structure/{Placement,Siblings}.v (the code after fixes/D06-placement-last-match.patch, D48, D49, D51);
    what is required: Structure/Spec.v (forbidden_spec: the documented ladder, evaluated for the rule
    explain names).  Every glob / regex answer is an arbitrary oracle column, so the statements hold for
    every glob and regex semantics; no bound on names, trees or rule lists. *)
 From Coq Require Import ZArith NArith List Bool Permutation.
 From SG Require Import Structure.Tree Structure.Names Structure.Config Structure.Placement Structure.Scan
      Structure.F64 Structure.Limits Structure.Siblings Structure.Spec Structure.Proofs_C06a Structure.Proofs_C06b
-     Structure.Proofs_C07.
+     Structure.Proofs_C07 Structure.Roots Structure.Proofs_Roots.
 Import ListNotations.
 Open Scope Z_scope.
 
@@ -19,6 +19,69 @@ Theorem C07_file_at_most_once : forall cfg rp rl t es e,
   (length (at_path (e_path e) (scan_violations cfg es)) <= 1)%nat.
 Proof. exact file_at_most_once_tree. Qed.
 Print Assumptions C07_file_at_most_once.
+
+(* since fixes/D48 the same holds for directories: NO walked entry is reported twice, and nothing that was
+   not walked is reported at all *)
+Theorem C07_entry_at_most_once : forall cfg rp rl t es e,
+  wf_tree t = true -> Permutation (entries rp rl t) es -> In e es ->
+  (length (at_path (e_path e) (scan_violations cfg es)) <= 1)%nat.
+Proof. exact entry_at_most_once_tree. Qed.
+Print Assumptions C07_entry_at_most_once.
+
+Theorem C07_only_walked_entries_reported : forall cfg es v,
+  In v (scan_violations cfg es) -> exists e, In e es /\ v_path v = e_path e.
+Proof. exact nothing_else_reported. Qed.
+Print Assumptions C07_only_walked_entries_reported.
+
+(* fixes/D49: count_exclude plays no part in placement (two entries that differ in the count_exclude columns
+   only get the same verdict) *)
+Theorem C07_count_exclude_does_not_exempt : forall cfg k p d c1 c2 a b,
+  c_se_name c1 = c_se_name c2 -> c_se_path c1 = c_se_path c2 -> c_se_dir c1 = c_se_dir c2 ->
+  c_g c1 = c_g c2 -> c_r c1 = c_r c2 ->
+  map v_kind (entry_violations cfg (mk_entry k p d c1 a b)) = map v_kind (entry_violations cfg (mk_entry k p d c2 a b)).
+Proof. exact count_exclude_does_not_exempt. Qed.
+Print Assumptions C07_count_exclude_does_not_exempt.
+
+(* fixes/D51: the project root (empty normalised path) is never reported by the directory lists *)
+Theorem C07_project_root_not_placed : forall cfg e,
+  e_kind e = KDir -> is_project_root (e_path e) = true -> entry_violations cfg e = [].
+Proof. exact project_root_not_placed. Qed.
+Print Assumptions C07_project_root_not_placed.
+
+(* ---- several scan roots (fixes/D50): of the requested roots only the outermost are walked, the first of equal
+   spellings; keys are the marked normalised keys of Structure/Roots.v ---- *)
+(* the walked roots are requested roots, each walked once *)
+Theorem C07_roots_walked_are_requested : forall keys,
+  NoDup (kept keys) /\ forall i, In i (kept keys) -> exists k, nth_error keys i = Some k.
+Proof. intro keys. split. apply kept_nodup. apply kept_requested. Qed.
+Print Assumptions C07_roots_walked_are_requested.
+
+(* no path is reached by two walks, so no entry is reported once per root: the keys of two different walked
+   roots are never both component-wise prefixes of one path *)
+Theorem C07_roots_walks_disjoint : forall keys i j ki kj p,
+  In i (kept keys) -> In j (kept keys) -> i <> j ->
+  nth_error keys i = Some ki -> nth_error keys j = Some kj ->
+  comparable ki = true -> comparable kj = true ->
+  prefix ki p = true -> prefix kj p = true -> False.
+Proof. exact kept_walks_disjoint. Qed.
+Print Assumptions C07_roots_walks_disjoint.
+
+(* nothing requested is lost: every requested root is walked itself or lies at or below a walked root *)
+Theorem C07_roots_cover : forall keys i ki, nth_error keys i = Some ki ->
+  exists j kj, In j (kept keys) /\ nth_error keys j = Some kj /\ (j = i \/ covers kj ki = true).
+Proof. exact kept_cover. Qed.
+Print Assumptions C07_roots_cover.
+
+(* src and src-tauri are different components: neither covers the other, both are walked; src twice, or src
+   and a directory or file below it, is walked once *)
+Definition k_src : list str := [[46]; [115; 114; 99]]%N.
+Definition k_src_tauri : list str := [[46]; [115; 114; 99; 45; 116; 97; 117; 114; 105]]%N.
+Definition k_src_a : list str := [[46]; [115; 114; 99]; [97]]%N.
+Example C07_example_roots :
+  kept [k_src; k_src_tauri] = [0; 1]%nat /\ kept [k_src; k_src] = [0]%nat /\ kept [k_src_a; k_src; k_src_a] = [1]%nat /\
+  kept [[[46]]%N; k_src; [[47]; [120]]%N] = [0; 2]%nat /\ kept [k_src; [[46]; [46; 46]; [120]]%N; [[46]]%N] = [1; 2]%nat.
+Proof. vm_compute. repeat split; reflexivity. Qed.
+Print Assumptions C07_example_roots.
 
 (* the decision ladder of the scanner IS the documented ladder, for files and for directories *)
 Theorem C07_file_exact : forall cfg name c sc, file_ladder cfg name c sc = forbidden_spec cfg name c sc.
@@ -102,6 +165,43 @@ Theorem C07_directed_sibling : forall files e i me ts w fm v,
 Proof. exact directed_sibling. Qed.
 Print Assumptions C07_directed_sibling.
 
+(* KNOWN FINDING K07_file_root_sibling (D52).  The companion is looked up among the SCANNED files.  That is the
+   set of visible files of the directory when the directory was walked; a file given as a scan root is scanned
+   alone, and its companions, present on disk and visible, are reported missing: the claim that a matching file
+   is reported only when a companion is absent among the visible files is refuted by the witness Button.tsx,
+   Button.test.tsx with scan root Button.tsx ... *)
+Definition cols_plain : cols := mk_cols false false false false false false []
+  (mk_gcols false false None None None None None None) [] [].
+Definition e_button : entry := mk_entry KFile [[66; 46; 116; 115; 120]%N; [99]%N] 0 cols_plain [] [].
+Definition f_button : path := [[66; 46; 116; 115; 120]%N; [99]%N].
+Definition f_button_test : path := [[66; 46; 116; 101; 115; 116; 46; 116; 115; 120]%N; [99]%N].
+Definition t_test : str := [123; 115; 116; 101; 109; 125; 46; 116; 101; 115; 116; 46; 116; 115; 120]%N.
+Theorem C07_directed_sibling_among_visible_refuted : exists files vis e i ts w,
+  (forall p, path_mem p files = true -> path_mem p vis = true) /\
+  sibling_one vis e i (SDirected false ts w) true = [] /\
+  sibling_one files e i (SDirected false ts w) true <> [].
+Proof.
+  exists [f_button], [f_button; f_button_test], e_button, 0, [t_test], false. split; [|split].
+  - intros p H. unfold path_mem in *. simpl in *. rewrite orb_false_r in H. rewrite H. reflexivity.
+  - vm_compute. reflexivity.
+  - vm_compute. discriminate.
+Qed.
+Print Assumptions C07_directed_sibling_among_visible_refuted.
+
+(* ... and holds outside the class: when every visible file was scanned the report is the one computed on the
+   visible files *)
+Theorem C07_directed_sibling_modulo_known : forall files vis e i me ts w fm,
+  (forall p, path_mem p files = true -> path_mem p vis = true) ->
+  partial_scan files vis = false ->
+  sibling_one files e i (SDirected me ts w) fm = sibling_one vis e i (SDirected me ts w) fm.
+Proof. exact directed_sibling_modulo_partial_scan. Qed.
+Print Assumptions C07_directed_sibling_modulo_known.
+
+Example C07_example_partial_scan :
+  partial_scan [f_button] [f_button; f_button_test] = true /\ partial_scan [f_button_test; f_button] [f_button; f_button_test] = false.
+Proof. vm_compute. split; reflexivity. Qed.
+Print Assumptions C07_example_partial_scan.
+
 (* a group rule reports a file iff the file matches a pattern of the group and EVERY candidate stem
    leaves some member missing (a file that completes the group under one of its stems is not flagged);
    at most one report per file and rule *)
@@ -150,3 +250,20 @@ Example C07_example_group :
   sibling_one [[[120; 46; 97]%N; [116]%N]; [[120; 46; 98]%N; [116]%N]] e_xa 0 grp false = [].
 Proof. vm_compute. split; reflexivity. Qed.
 Print Assumptions C07_example_group.
+
+(* the D48 witness: a directory matched by a global directory-only pattern, by a global deny_dirs name and by
+   a deny_dirs name of the consulted rule is reported ONCE, by the first clause; the D49 witness: a denied
+   file is reported whether or not count_exclude matches it *)
+Definition cfg_d48 : config := mk_config None None None None None None None None [] 0 0 [] 1 0 1
+  [mk_srule [115]%N None None None false None None None None None [] 0 0 0 [] 0 0 1 false []].
+Definition cols_d48 (ce : bool) : cols := mk_cols false false false false ce false []
+  (mk_gcols false false None None None (Some 0) None (Some 0)) [mk_rcols false false false false None None None (Some 0) true] [].
+Definition cfg_d49 : config := mk_config None None None None None None None None [] 0 0 [[46; 101; 120; 101]%N] 0 0 0 [].
+Example C07_example_directory_once :
+  entry_violations cfg_d48 (mk_entry KDir [[98]; [115]]%N 1 (cols_d48 false) [true] [true])
+    = [mkv [[98]; [115]]%N (VDeniedDir (MDirPat 0)) 0 RGlobal] /\
+  entry_violations cfg_d48 (mk_entry KDir [[46]]%N 0 (cols_d48 false) [true] [true]) = [] /\
+  entry_violations cfg_d49 (mk_entry KFile [[97; 46; 101; 120; 101]; [115]]%N 1 (cols_d48 true) [] [])
+    = [mkv [[97; 46; 101; 120; 101]; [115]]%N (VDeniedFile (MExt [46; 101; 120; 101]%N)) 0 RGlobal].
+Proof. vm_compute. repeat split; reflexivity. Qed.
+Print Assumptions C07_example_directory_once.
